@@ -1,12 +1,15 @@
-/* C19 -- ev_spec.c print path (ovnidump, ovniemu -d): for an arbitrary compiled event
- * definition satisfying SPEC_WF, an arbitrary description string of ANY length, an
- * arbitrary output buffer size and an arbitrary event whose payload holds the declared
- * arguments (what check_payload guarantees, c19_model.c):
- *   - every payload read of print_arg lies inside payload[0..payload_size)  (byte-exact,
- *     checked in the memcpy wrapper);
- *   - nothing is written outside outbuf[0..outlen);
- *   - the description is never read past its terminator;
- *   - ev_spec_print terminates (decreases clause: remaining description).  */
+/* C19 -- ev_spec.c print path (ovnidump, ovniemu -d): print_arg, the only function of the
+ * print path that reads the event payload.  For an arbitrary declared argument that lies
+ * inside the declared payload (SPEC_WF for that argument), an arbitrary event whose payload
+ * holds the declared payload (what check_payload guarantees, c19_model.c) and an output
+ * cursor inside an output buffer of ANY size:
+ *   - every payload read lies inside payload[0..payload_size)  (byte-exact, checked in the
+ *     memcpy wrapper);
+ *   - the output cursor stays inside outbuf[0..outlen-1).
+ * NOT covered (see the report): format_region / ev_spec_print.  Their loop variables are
+ * pointers (cursor.in/out); CBMC 6.11 loop contracts havoc them and the value set is lost
+ * (same_object in the invariant does not restore it, pointer predicates are rejected in loop
+ * invariants), and format_region alone exceeds the memory limit. */
 #include "prelude.h"
 #include "emu_ev.h"
 
@@ -22,10 +25,6 @@ static inline void *c19_memcpy(void *d, const void *s, size_t n)
 	g_payload_reads++;
 	return (memcpy)(d, s, n);
 }
-/* TRUSTED glibc: isalnum()/isgraph() index a table valid for -128..255; arbitrary content */
-static unsigned short c19_ctype_tab[384];
-static const unsigned short *c19_ctype_ptr = &c19_ctype_tab[128];
-const unsigned short **__ctype_b_loc(void) { return &c19_ctype_ptr; }
 #define memcpy(d, s, n) c19_memcpy((d), (s), (n))
 #include "ev_spec.c"       /* the real /repo/src/emu/ev_spec.c */
 #undef memcpy
@@ -34,50 +33,14 @@ const unsigned short **__ctype_b_loc(void) { return &c19_ctype_ptr; }
 
 #define RET __CPROVER_return_value
 
-/* the description: a C string of arbitrary length g_dlen (object of g_dlen+1 bytes, NUL at
- * g_dlen; earlier NULs allowed); the output buffer: g_outlen bytes */
-unsigned long g_dlen; const char *g_desc; char *g_outbuf; int g_outlen;
+char *g_outbuf; int g_outlen;
 struct ev_spec *g_spec; int w_outlen;
-#define C19_MAX_DESC (1UL << 40)
-
-/* cursor invariant: in points into the description (at most at its last NUL), out/len
- * describe the unwritten tail of outbuf[0..outlen-1), one byte always left for the NUL */
-#define CURSOR_WF(c) ( \
-	__CPROVER_same_object((c)->in, g_desc) && (c)->in >= g_desc && (c)->in <= g_desc + g_dlen && \
-	(c)->len >= 0 && (c)->len <= g_outlen - 1 && (c)->out == g_outbuf + (g_outlen - 1 - (c)->len))
-
 /* (shape clauses with is_fresh are kept apart from the pure value predicates: a long
  * short-circuit chain in front of an is_fresh call makes symbolic execution explode) */
+#define POFF(p) ((long) __CPROVER_POINTER_OFFSET(p))
 #define PRINT_SHAPE(spec, ev) (__CPROVER_is_fresh(spec, sizeof(struct ev_spec)) && EMU_EV_WF(ev))
 #define PRINT_VALS(spec, ev) (SPEC_WF(spec) && (spec)->payload_size <= (ev)->payload_size && STRINGS_INSIDE(spec, (ev)->payload_size) && \
 	g_payload == (const uint8_t *) (ev)->payload && g_psize == (ev)->payload_size)
-
-/* ---------------- ev_spec_find_arg (bounded: names are 64-byte arrays) ---------------- */
-int g_arg_k;   /* index of the argument returned by ev_spec_find_arg */
-struct ev_arg *cr_ev_spec_find_arg(struct ev_spec *spec, const char *name)
-__CPROVER_requires(spec != NULL && spec->nargs >= 0 && spec->nargs <= MAX_ARGS && name != NULL)
-__CPROVER_assigns(g_arg_k)
-__CPROVER_ensures(RET == NULL || (g_arg_k >= 0 && g_arg_k < spec->nargs && __CPROVER_pointer_equals(RET, &spec->args[g_arg_k])))
-;
-int w_nargs;
-WITNESS(ev_spec_find_arg);
-struct ev_arg *c_ev_spec_find_arg(struct ev_spec *spec, const char *name)
-__CPROVER_requires(__CPROVER_is_fresh(spec, sizeof(*spec)) && spec->nargs >= 0 && spec->nargs <= MAX_ARGS)
-__CPROVER_requires(SPEC_NAMES_TERMINATED(spec))
-__CPROVER_requires(__CPROVER_is_fresh(name, 64) && name[63] == 0)
-__CPROVER_requires(WBIND(ev_spec_find_arg, w_nargs == spec->nargs))
-__CPROVER_assigns(g_arg_k)
-__CPROVER_ensures(RET == NULL || (__CPROVER_same_object(RET, spec) && RET >= &spec->args[0] && RET < &spec->args[0] + spec->nargs &&
-	((const char *) RET - (const char *) &spec->args[0]) % sizeof(struct ev_arg) == 0))
-;
-void h_ev_spec_find_arg(void)
-{
-	struct ev_spec *spec; const char *name;
-	WITNESS_ON(ev_spec_find_arg);
-	struct ev_arg *a = ev_spec_find_arg(spec, name);
-	if (a != NULL) REACH("argument found");
-	if (a == NULL && w_nargs == MAX_ARGS) REACH("argument not found among 16");
-}
 
 /* ---------------- print_arg: the only reader of the payload in the print path ---------------- */
 int g_k; int g_len0p; unsigned w_type; unsigned long w_off, w_spec_psize, w_ev_psize;
@@ -99,7 +62,7 @@ __CPROVER_requires(WBIND(print_arg, w_type == (unsigned) arg->type && w_off == a
 __CPROVER_assigns(c->out, c->len, DIAG_FRAME, g_payload_reads, __CPROVER_object_whole(g_outbuf))
 __CPROVER_ensures(RET == 0 || RET == -1)
 /* the output cursor stays inside outbuf[0..outlen-1): room for the final NUL is kept */
-__CPROVER_ensures(RET != 0 || (c->len >= 0 && c->len <= g_len0p && c->out == g_outbuf + (g_outlen - 1 - c->len)))
+__CPROVER_ensures(RET != 0 || (c->len >= 0 && c->len <= g_len0p && __CPROVER_same_object(c->out, g_outbuf) && POFF(c->out) == (long) (g_outlen - 1 - c->len)))
 /* numeric arguments are read exactly once from the payload (range checked in the memcpy wrapper) */
 __CPROVER_ensures(RET != 0 || g_payload_reads == (arg->type == STR ? 0u : 1u))
 __CPROVER_ensures(RET == 0 || g_err > __CPROVER_old(g_err))
@@ -114,67 +77,4 @@ void h_print_arg(void)
 	if (r == 0 && w_type == STR) REACH("string argument printed");
 	if (r == 0 && w_outlen > 1000000) REACH("huge output buffer");
 	if (r != 0) REACH("no space refused");
-}
-
-/* ---------------- format_region ---------------- */
-unsigned long g_in_off;
-WITNESS(format_region);
-unsigned long w_dlen, w_psize;
-/* self-contained (also used to replace the call in ev_spec_print) */
-int cr_format_region(struct ev_spec *spec, struct cursor *c, struct emu_ev *ev)
-__CPROVER_requires(PRINT_SHAPE(spec, ev))
-__CPROVER_requires(PRINT_VALS(spec, ev) && DIAG_PRE)
-__CPROVER_requires(g_dlen <= C19_MAX_DESC && __CPROVER_is_fresh(g_desc, g_dlen + 1) && g_desc[g_dlen] == 0)
-__CPROVER_requires(g_outlen >= 1 && __CPROVER_is_fresh(g_outbuf, (size_t) g_outlen))
-/* the cursor, written with pointer_equals so that in/out are known to point into the two buffers */
-__CPROVER_requires(__CPROVER_is_fresh(c, sizeof(*c)) && c->len >= 1 && c->len <= g_outlen - 1)
-__CPROVER_requires(WBIND(format_region, g_in_off <= g_dlen && __CPROVER_pointer_equals(c->in, g_desc + g_in_off)))
-__CPROVER_requires(WBIND(format_region, __CPROVER_pointer_equals(c->out, g_outbuf + (g_outlen - 1 - c->len))))
-__CPROVER_requires(__CPROVER_same_object(c->in, g_desc) && c->in >= g_desc && c->in <= g_desc + g_dlen)
-__CPROVER_requires(c->out == g_outbuf + (g_outlen - 1 - c->len))
-__CPROVER_requires(WBIND(format_region, w_outlen == g_outlen && w_dlen == g_dlen && w_psize == g_psize))
-__CPROVER_assigns(*c, DIAG_FRAME, g_payload_reads, g_arg_k, __CPROVER_object_whole(g_outbuf))
-__CPROVER_ensures(RET == 0 || RET == -1)
-/* success: the input advanced (by at least "%%"), the cursor is still well-formed */
-__CPROVER_ensures(RET != 0 || (CURSOR_WF(c) && c->in >= __CPROVER_old(c->in) + 2 && c->len <= __CPROVER_old(c->len)))
-__CPROVER_ensures(RET != 0 || (g_err == __CPROVER_old(g_err) && g_warn == __CPROVER_old(g_warn) && g_diag == __CPROVER_old(g_diag)))
-__CPROVER_ensures(RET == 0 || g_err > __CPROVER_old(g_err))
-;
-void h_format_region(void)
-{
-	struct ev_spec *spec; struct cursor *c; struct emu_ev *ev;
-	WITNESS_ON(format_region);
-	int r = format_region(spec, c, ev);
-	if (r == 0 && g_payload_reads == 1) REACH("argument printed");
-	if (r == 0 && g_payload_reads == 0) REACH("literal percent or string argument");
-	if (r != 0) REACH("format refused");
-	if (r == 0 && w_dlen > 1000000) REACH("long description");
-}
-
-/* ---------------- ev_spec_print: loop contract in loops/c19_evspec.json ---------------- */
-WITNESS(ev_spec_print);
-int c_ev_spec_print(struct ev_spec *spec, struct emu_ev *ev, char *outbuf, int outlen)
-__CPROVER_requires(PRINT_SHAPE(spec, ev))
-__CPROVER_requires(PRINT_VALS(spec, ev) && DIAG_PRE && g_payload_reads == 0)
-__CPROVER_requires(g_dlen <= C19_MAX_DESC && __CPROVER_is_fresh(g_desc, g_dlen + 1) && g_desc[g_dlen] == 0)
-__CPROVER_requires(__CPROVER_pointer_equals(spec->description, g_desc))
-/* any outlen, also <= 0; the buffer has exactly outlen bytes */
-__CPROVER_requires(g_outlen == outlen && (outlen <= 0 || __CPROVER_is_fresh(g_outbuf, (size_t) outlen)))
-__CPROVER_requires(outlen <= 0 || __CPROVER_pointer_equals(outbuf, g_outbuf))
-__CPROVER_requires(WBIND(ev_spec_print, w_outlen == outlen && w_dlen == g_dlen && w_psize == g_psize))
-__CPROVER_assigns(DIAG_FRAME, g_payload_reads, g_arg_k)
-__CPROVER_assigns(outlen > 0: __CPROVER_object_whole(g_outbuf))
-__CPROVER_ensures(RET == 0 || RET == -1)
-__CPROVER_ensures(RET == 0 || g_err > __CPROVER_old(g_err))
-;
-void h_ev_spec_print(void)
-{
-	struct ev_spec *spec; struct emu_ev *ev; char *outbuf; int outlen;
-	WITNESS_ON(ev_spec_print); WITNESS_OFF(format_region);
-	int r = ev_spec_print(spec, ev, outbuf, outlen);
-	if (r == 0) REACH("event printed");
-	if (r == 0 && w_dlen > 1000000 && w_outlen > 1000000) REACH("long description printed");
-	if (r == 0 && g_payload_reads > 0) REACH("description with arguments printed");
-	if (r != 0 && w_outlen <= 0) REACH("no buffer refused");
-	if (r != 0 && w_outlen > 0 && w_dlen >= (unsigned long) w_outlen) REACH("description too long refused");
 }
